@@ -215,6 +215,26 @@ def forbidden_tokens():
     return hits
 
 
+def _imports_closure(path, seen):
+    if path in seen or not os.path.exists(path):
+        return
+    seen.add(path)
+    for m in re.finditer(r"^import\s+(Xp(?:Model|Proofs|Driver)\.[\w.]+)", open(path).read(), flags=re.M):
+        _imports_closure(os.path.join(LEAN, *m.group(1).split(".")) + ".lean", seen)
+
+
+def gen_defs_used(prop_id):
+    """names of the generated (translator lane) defs mentioned by the property file or anything it imports"""
+    seen = set()
+    _imports_closure(os.path.join(LEAN, "XpProofs", "Properties", f"{prop_id}.lean"), seen)
+    used = set()
+    for p in seen:
+        if p.endswith(os.path.join("Gen", "Arith.lean")):
+            continue
+        used |= set(re.findall(r"Gen\.(\w+)", open(p).read()))
+    return used
+
+
 def lean_stage(prop_id, thorough=False):
     """Returns dict(obligations, discharged, broken=[...], gen_status, audit, build_log)."""
     t0 = time.time()
@@ -228,13 +248,16 @@ def lean_stage(prop_id, thorough=False):
         rc, out = _run(["lake", "build", "XpModel", "XpDriver", "xpdriver"], cwd=LEAN)
         if rc != 0:
             raise InfraError("model / driver build failed:\n" + out[-4000:])
-        rc, out_p = _run(["lake", "build", "XpProofs"], cwd=LEAN)
+        rc, out_p = _run(["lake", "build", f"XpProofs.Properties.{prop_id}"], cwd=LEAN)
         proofs_ok = rc == 0
     finally:
         fcntl.flock(lock, fcntl.LOCK_UN)
         lock.close()
-    gen_changed = sorted(k for k, v in gen.items() if v.get("changed"))
-    res = {"gen_changed": gen_changed, "gen_status": gen, "broken": [], "axioms": {}}
+    # generated defs this property's theorems / model (transitively) mention
+    used = gen_defs_used(prop_id)
+    gen_changed = sorted(k for k, v in gen.items() if v.get("changed") and k in used)
+    res = {"gen_changed": gen_changed, "gen_used": sorted(used), "gen_status": {k: gen[k] for k in used if k in gen},
+           "broken": [], "axioms": {}}
     names, examples, path = theorem_names(prop_id)
     if not names:
         raise InfraError(f"no property theorems found for {prop_id} ({path})")
@@ -247,9 +270,9 @@ def lean_stage(prop_id, thorough=False):
     if not proofs_ok:
         errs = [l for l in out_p.splitlines() if "error" in l][:20]
         if not gen_changed:
-            raise InfraError("proof build failed although no generated def changed:\n" + "\n".join(errs))
+            raise InfraError("proof build failed although no generated def used by this property changed:\n" + "\n".join(errs))
         # a proof obligation broke because the source arithmetic changed
-        res["broken"] = [f"lake build XpProofs fails after regenerating {gen_changed}: " + " | ".join(errs[:6])]
+        res["broken"] = [f"lake build XpProofs.Properties.{prop_id} fails after regenerating {gen_changed}: " + " | ".join(errs[:6])]
         res["discharged"] = 0
         res["lean_wall_s"] = time.time() - t0
         return res
@@ -437,6 +460,7 @@ class Ctx:
         }
         if extra:
             cov.update(extra)
+        n_obl, n_dis = cov["obligations"], cov["discharged"]
         if not cov["discharged"]:
             # proofs did not build on this tree: nothing is discharged; fall back to the generic keys
             cov["obligations_total"] = cov.pop("obligations")
@@ -449,8 +473,8 @@ class Ctx:
             json.dump(ev, f, indent=1, default=str)
         for l in lines:
             print(l, flush=True)
-        print(f"[{self.prop}] tier={self.tier} seed={self.seed} obligations={cov['obligations']} "
-              f"discharged={cov['discharged']} cases={self.evaluations} distinct={len(self.hashes)} "
+        print(f"[{self.prop}] tier={self.tier} seed={self.seed} obligations={n_obl} "
+              f"discharged={n_dis} cases={self.evaluations} distinct={len(self.hashes)} "
               f"exact={self.lanes['exact']} tol={self.lanes['tol']} corr_fail={len(self.corr_failures)} "
               f"prop_fail={len(self.prop_failures)} wall={wall:.0f}s", flush=True)
         return 1 if violations else 0
